@@ -4,6 +4,7 @@ Driver operations for the chain model (C01, C03, C05, C11, …). Core Lean only.
 import BHS.Model.Header
 import BHS.Spec.BestChain
 import BHS.Model.Query
+import BHS.Model.Interleave
 
 namespace Driver.Ops.Chain
 open BHS BHS.Chain BHS.Header
@@ -11,6 +12,7 @@ open BHS BHS.Chain BHS.Header
 structure S where
   store : Store String := [genesisRow]
   forbidden : List String := []
+  threads : List (Thread String) := []
 
 def cfgOf (st : S) : Cfg String := { hashOf := blockHash, forbidden := st.forbidden }
 
@@ -49,6 +51,18 @@ def hashesStr (l : List (Row String)) : String := ",".intercalate (l.map (·.has
 def optKey (k : String) : Option String := if k = "-" then none else some k
 
 def parseHeader (hex : String) : Option (Src String) := (BHS.Sha256.ofHex hex).bind parse
+
+/-- the repository call a thread is about to make -/
+def callName : Pc String → String
+  | .start => "R byhash"
+  | .readParent => "R byhash"
+  | .readAtHeight _ => "R byheight"
+  | .readTip _ => "R tip"
+  | .readStale _ => "R staleback"
+  | .readConc _ _ => "R lcfrom"
+  | .writes _ (w :: _) => writeStr w
+  | .writes _ [] => "none"
+  | .done _ => "done"
 
 def handle (st : S) : List String → Option (S × String)
   | ["reset"] => some ({ st with store := [genesisRow] }, "ok")
@@ -119,6 +133,23 @@ def handle (st : S) : List String → Option (S × String)
     | .notFound => some (st, "err:notfound")
     | .nilResult => some (st, "nil")
     | .panicEmpty => some (st, "panic")
+  | "ilv" :: "init" :: hexes =>
+    match hexes.mapM parseHeader with
+    | none => some (st, "bad-header")
+    | some xs => some ({ st with threads := xs.map (fun x => { x := x, pc := .start }) }, "ok")
+  | ["ilv", "step", i] =>
+    match i.toNat? with
+    | none => some (st, "bad-args")
+    | some i =>
+      match st.threads[i]? with
+      | none => some (st, "no-thread")
+      | some t =>
+        let call := callName t.pc
+        let p := stepThread (cfgOf st) st.store t
+        let out := match p.2.pc with
+          | .done o => call ++ " => " ++ outcomeStr o
+          | _ => call
+        some ({ st with store := p.1, threads := st.threads.set i p.2 }, out)
   | ["count"] => some (st, toString st.store.length)
   | _ => none
 
